@@ -21,8 +21,10 @@ Proof.
     intro E. inversion E. subst. destruct Q as [_ [_ [_ [R M]]]]. auto.
 Qed.
 
-Lemma f10_witness_ok :
-  legit_schedule f10_witness = true /\ observes [666%Z; Z.of_N F_GAP] f10_witness = true /\
+(* F10 is fixed: the schedule on which the old code died is survived *)
+Lemma f10_schedule_survived :
+  legit_schedule f10_witness = true /\
+  existsb (fun l => match l with 666%Z :: _ => true | _ => false end) (run_case f10_witness) = false /\
   existsb (fun op => match op with 10%Z :: _ => true | _ => false end) f10_witness = true.
 Proof. vm_compute. repeat split; reflexivity. Qed.
 
@@ -45,20 +47,16 @@ Lemma handler_equals_its_durable_mutations_lemma :
     n_p s' = replay (n_p s) (n_muts s').
 Proof. intros s ev st s' Hne Hm H. destruct (run_event_mono s ev st s' Hne H) as [_ B]. exact (B Hm). Qed.
 
-(* the state-level face of F10: right after the crash of the witness (its first 31 ops) node 3 has a commit index beyond
-   its last persisted index and a snapshot ahead of its log *)
+(* right after the crash of that schedule (its first 31 ops) node 3's storage is consistent again *)
 Definition f10_prefix : list (list Z) := firstn 31 f10_witness.
 
-Lemma f10_state_ok :
+Lemma f10_state_repaired :
   legit_schedule f10_prefix = true /\
   exists c s, final_state f10_prefix = Some c /\ get_node 3 c = Some s /\
-              last_index (n_p s) < n_commit s /\ ~ storage_ok (n_p s).
+              n_commit s <= last_index (n_p s) /\ p_log (n_p s) = [].
 Proof.
   split; [vm_compute; reflexivity|].
   destruct (final_state f10_prefix) as [c |] eqn:E; [| vm_compute in E; discriminate].
-  destruct (get_node 3 c) as [s |] eqn:G; [| vm_compute in E; inversion E; subst; vm_compute in G; discriminate].
-  exists c, s. split; [reflexivity|]. split; [exact G|].
-  vm_compute in E. inversion E. subst c. vm_compute in G. inversion G. subst s.
-  split; [vm_compute; reflexivity|].
-  unfold storage_ok. vm_compute. intros [H _]. apply H. reflexivity.
+  vm_compute in E. inversion E. subst c. eexists. eexists. split; [reflexivity|]. split; [vm_compute; reflexivity|].
+  split; vm_compute; [discriminate | reflexivity].
 Qed.
